@@ -71,7 +71,8 @@ def r1(chk, prog, variant):
         installs = [c for c in calls if c.callee == "uselocale" and c.ops[0].kind != "null"]
         chk.require(len(reads) >= 1, "no uselocale(NULL) read of the caller's locale")
         rd = reads[0]
-        old_regs = {rd.res}
+        from ..flow import local_copies
+        old_regs = local_copies(f, P, rd.res)     # the value read at entry, also after a round trip through a local slot / struct
         cfg = cfg_of(f)
         # an install is a uselocale(x) where x is not the saved old locale
         real_installs = [c for c in installs if not (c.ops[0].kind == "reg" and c.ops[0].v in old_regs)]
@@ -94,6 +95,12 @@ def r1(chk, prog, variant):
                            "every path from the install to a return passes uselocale(old) (%d restore site(s))" % len(restores), variant=variant)
             # the installed locale is the one newlocale() built with the LC_NUMERIC mask and "C"
             d = f.defs.get(inst.ops[0].v) if inst.ops[0].kind == "reg" else None
+            if d is not None and d.op != "call":
+                # the installed value may have been kept in a local slot since newlocale() returned it
+                for c2 in f.instrs():
+                    if c2.op == "call" and c2.callee == "newlocale" and c2.res is not None and inst.ops[0].v in local_copies(f, P, c2.res):
+                        d = c2
+                        break
             n += 1
             ok = False
             if d is not None and d.op == "call" and d.callee == "newlocale":
@@ -196,7 +203,13 @@ def r2(chk, prog, variant):
     cfg = cfg_of(pe)
     P = Paths(pe, prog)
     calls = [i for i in pe.instrs() if i.op == "call" and i.callee in ("uselocale", "setlocale")]
-    installs = [c for c in calls if (c.callee == "uselocale" and c.ops[0].kind != "null" and not P.path(c.ops[0]).startswith("call:uselocale"))
+    from ..flow import local_copies
+    olds = set()
+    for c in calls:
+        if c.callee == "uselocale" and c.ops[0].kind == "null" and c.res is not None:
+            olds |= local_copies(pe, P, c.res)
+    installs = [c for c in calls if (c.callee == "uselocale" and c.ops[0].kind != "null" and not P.path(c.ops[0]).startswith("call:uselocale")
+                                     and not (c.ops[0].kind == "reg" and c.ops[0].v in olds))
                 or (c.callee == "setlocale" and c.ops[1].kind != "null" and strip_casts(c.ops[1]).kind != "reg")]
     restores = [c for c in calls if c not in installs and not (c.ops[0].kind == "null" or (c.callee == "setlocale" and c.ops[1].kind == "null"))]
     chk.require(installs and restores, "install/restore sites not found for the region computation")
@@ -306,8 +319,17 @@ def r2(chk, prog, variant):
                             fix = (c, s)
             appends = [c for c in g.instrs() if c.op == "call" and c.callee in ("printbuf_memappend",) and Pg.path(c.ops[1]) == buf]
             if fix is None:
-                chk.refuted(rid, g.name, sig, i.locstr(),
-                            "floating-point text produced under the caller's locale is appended without a ','->'.' fix-up", variant=variant)
+                # not the strchr idiom: decide by evaluating the emitter with a conversion result that has a decimal comma
+                ev = _fixup_by_evaluation(prog, g)
+                if ev is True:
+                    chk.proven(rid, g.name, sig, i.locstr(),
+                               "evaluated with the conversion results '5,25', '-5,5e+05' and '5': a decimal comma is emitted as '.'", variant=variant)
+                elif ev is None:
+                    chk.undecided(rid, g.name, sig, i.locstr(), "no strchr(buf, ',') fix-up and the emitter could not be evaluated", variant=variant)
+                else:
+                    chk.refuted(rid, g.name, sig, i.locstr(),
+                                "floating-point text produced under the caller's locale is appended without a ','->'.' fix-up "
+                                "(evaluated: the conversion result %r is emitted as %r)" % ev, variant=variant)
                 continue
             bad = None
             cfg_g = cfg_of(g)
@@ -322,6 +344,34 @@ def r2(chk, prog, variant):
                 chk.proven(rid, g.name, sig, i.locstr(),
                            "every path from the formatting call to the %d append(s) of the buffer passes strchr(buf, ',') with '.' stored through a non-null result" % len(appends), variant=variant)
     chk.floor(rid + "." + variant, n, 3, "locale-sensitive call sites")
+
+
+def _fixup_by_evaluation(prog, g):
+    """True / (text, emitted) / None"""
+    from . import c02
+    from .. import pe as _pe
+    if len(g.params) != 5:
+        return None
+    try:
+        for txt, want in ((b"5,25", b"5.25"), (b"-5,5e+05", b"-5.5e+05"), (b"5", None)):
+            h = c02.FmtPE(prog, txt, 0)
+            leaves = h.run(g, [("ptr", "jso", ()), ("ptr", "pb", ()), _pe.C(0), _pe.C(0), _pe.C(0)], _pe.State())
+            outs = set()
+            for lf in leaves:
+                if lf.kind != "ret" or not any(e[0] == "formatted" for e in lf.state.trace):
+                    continue
+                o = [e for e in lf.state.trace if e[0] == "out"]
+                outs.add(tuple(e[1] for e in o))
+            if len(outs) != 1:
+                return None
+            (seq,) = outs
+            if len(seq) != 1 or seq[0] is None:
+                return None
+            if b"," in seq[0] or (want is not None and seq[0] != want):
+                return (txt.decode(), seq[0].decode("latin-1"))
+        return True
+    except Exception:
+        return None
 
 
 def _reg(c):
